@@ -960,16 +960,573 @@ example : Bin.enc (.int 300) = [2, 251, 0x58, 0x02] := by rfl                   
 example : Bin.decode [1, 2] = .err .badbool := by rfl                               -- (the spill decoder reads `true`)
 example : Bin.decode [4, 253, 0xff, 0xff, 0xff, 0xff, 0xff, 0xff, 0xff, 0xff] = .err .eof := by rfl  -- borrowed str: no allocation
 
-/-- **Witness: `import_snapshot` on 13 bytes.** version 1, one node, id 0, one label whose length field is
-`u64::MAX`: the owned `String` is decoded by `vec![0u8; len]` before the bytes are read → panic;
-with length `2^62` → allocation failure, abort. -/
-theorem c16ser_snapshot_import_panic_witness :
-    Bin.importSnapshot [1, 1, 0, 1, 253, 0xff, 0xff, 0xff, 0xff, 0xff, 0xff, 0xff, 0xff] = .panic
-    ∧ Bin.importSnapshot [1, 1, 0, 1, 253, 0, 0, 0, 0, 0, 0, 0, 0x40] = .abort := by
+/-! ## snapshot import under the byte budget (`decode_snapshot`) -/
+namespace SnapP
+open Bin
+
+/-- the decoder returned, and when it returned `Ok`: no more unread bytes and no more budget than before. -/
+def Fine {α : Type} (s : List UInt8) (b : Nat) : LR α → Prop
+  | .ok p => p.2.1.length ≤ s.length ∧ p.2.2 ≤ b
+  | .err _ => True
+  | _ => False
+
+theorem Fine.weaken {α : Type} {s r : List UInt8} {b b' : Nat} {y : LR α} (h : Fine r b' y)
+    (hr : r.length ≤ s.length) (hb : b' ≤ b) : Fine s b y := by
+  cases y with
+  | ok p => simp only [Fine] at h ⊢; omega
+  | err e => trivial
+  | panic => exact h.elim
+  | abort => exact h.elim
+  | fuel => exact h.elim
+
+theorem Fine.bind {α β : Type} {s : List UInt8} {b : Nat} {x : LR α} {f : α × List UInt8 × Nat → LR β}
+    (hx : Fine s b x) (hf : ∀ a r b', r.length ≤ s.length → b' ≤ b → Fine r b' (f (a, r, b'))) :
+    Fine s b (x.bind f) := by
+  cases x with
+  | ok p =>
+    obtain ⟨a, r, b'⟩ := p
+    simp only [Fine] at hx
+    exact (hf a r b' hx.1 hx.2).weaken hx.1 hx.2
+  | err e => trivial
+  | panic => exact hx.elim
+  | abort => exact hx.elim
+  | fuel => exact hx.elim
+
+theorem Fine.bind_returned {α γ : Type} {s : List UInt8} {b : Nat} {x : LR α} {g : α × List UInt8 × Nat → Res γ}
+    (hx : Fine s b x) (hg : ∀ a r b', r.length ≤ s.length → b' ≤ b → (g (a, r, b')).returned = true) :
+    (x.bind g).returned = true := by
+  cases x with
+  | ok p =>
+    obtain ⟨a, r, b'⟩ := p
+    simp only [Fine] at hx
+    exact hg a r b' hx.1 hx.2
+  | err e => rfl
+  | panic => exact hx.elim
+  | abort => exact hx.elim
+  | fuel => exact hx.elim
+
+theorem readN_spec (k : Nat) (s : List UInt8) :
+    (∃ a r, readN k s = .ok (a, r) ∧ r.length + k = s.length) ∨ readN k s = .err .eof := by
+  unfold readN
+  by_cases h : k ≤ s.length
+  · left; refine ⟨s.take k, s.drop k, by simp [h], ?_⟩
+    simp; omega
+  · right; simp [h]
+
+/-- a varint is at least one byte; `readVarint` never panics. -/
+theorem readVarint_cases (m : Nat) (s : List UInt8) :
+    (∃ n r, readVarint m s = .ok (n, r) ∧ r.length < s.length) ∨ (∃ e, readVarint m s = .err e) := by
+  cases s with
+  | nil => right; exact ⟨.eof, rfl⟩
+  | cons x xs =>
+    have key : ∀ k, 0 < k →
+        (∃ n r, ((readN k xs).bind fun p => Res.ok (ofLe p.1, p.2)) = .ok (n, r) ∧ r.length < (x :: xs).length)
+        ∨ ∃ e, ((readN k xs).bind fun p => (Res.ok (ofLe p.1, p.2) : Res (Nat × List UInt8))) = .err e := by
+      intro k hk
+      rcases readN_spec k xs with ⟨a, r, h, hl⟩ | h
+      · left; exact ⟨ofLe a, r, by simp [h, Res.bind], by simp; omega⟩
+      · right; exact ⟨.eof, by simp [h, Res.bind]⟩
+    unfold readVarint
+    simp only
+    split
+    · left; exact ⟨x.toNat, xs, rfl, by simp⟩
+    · split
+      · exact key 2 (by omega)
+      · split
+        · exact key 4 (by omega)
+        · split
+          · exact key 8 (by omega)
+          · right; exact ⟨.inttype, rfl⟩
+
+theorem readVarint_ok {m : Nat} {s r : List UInt8} {n : Nat} (h : readVarint m s = .ok (n, r)) : r.length < s.length := by
+  rcases readVarint_cases m s with ⟨n', r', h', hl⟩ | ⟨e, h'⟩
+  · rw [h'] at h; cases h; exact hl
+  · rw [h'] at h; cases h
+
+theorem readVarint_ret (m : Nat) (s : List UInt8) : (∃ p, readVarint m s = .ok p) ∨ (∃ e, readVarint m s = .err e) := by
+  rcases readVarint_cases m s with ⟨n', r', h', _⟩ | h
+  · left; exact ⟨_, h'⟩
+  · right; exact h
+
+theorem fine_rdVarint (w m b : Nat) (s : List UInt8) : Fine s b (rdVarint w m b s) := by
+  unfold rdVarint claim
+  split
+  · simp only [Res.bind]
+    rcases readVarint_ret m s with ⟨⟨n, r⟩, h⟩ | ⟨e, h⟩
+    · have := readVarint_ok h
+      simp only [h, Fine]; omega
+    · simp only [h, Fine]
+  · simp [Res.bind, Fine]
+
+theorem rdVarint_lt {w m b : Nat} {s r : List UInt8} {n b' : Nat} (h : rdVarint w m b s = .ok (n, r, b')) : r.length < s.length := by
+  unfold rdVarint claim at h
+  split at h
+  · simp only [Res.bind] at h
+    rcases readVarint_ret m s with ⟨⟨n', r'⟩, h'⟩ | ⟨e, h'⟩
+    · have := readVarint_ok h'
+      simp only [h'] at h
+      cases h; exact this
+    · simp [h'] at h
+  · simp [Res.bind] at h
+
+theorem fine_rdU8 (b : Nat) (s : List UInt8) : Fine s b (rdU8 b s) := by
+  unfold rdU8 claim readU8
+  split
+  · cases s <;> simp [Res.bind, Fine]
+  · simp [Res.bind, Fine]
+
+theorem fine_rdN (n b : Nat) (s : List UInt8) : Fine s b (rdN n b s) := by
+  unfold rdN claim readN
+  split
+  · split <;> simp [Res.bind, Fine]
+  · simp [Res.bind, Fine]
+
+theorem fine_mStr (b : Nat) (s : List UInt8) : Fine s b (mStr b s) := by
+  unfold mStr
+  refine Fine.bind (fine_rdVarint 8 8 b s) (fun n r b1 _ _ => ?_)
+  refine Fine.bind (fine_rdN n b1 r) (fun a r2 b2 _ _ => ?_)
+  split <;> simp [Fine]
+
+theorem fine_mU8 (b : Nat) (s : List UInt8) : Fine s b (mU8 b s) :=
+  Fine.bind (fine_rdU8 b s) (fun _ _ _ _ _ => by simp [Fine])
+
+theorem fine_mF32 (b : Nat) (s : List UInt8) : Fine s b (mF32 b s) :=
+  Fine.bind (fine_rdN 4 b s) (fun _ _ _ _ _ => by simp [Fine])
+
+theorem fine_mBool (b : Nat) (s : List UInt8) : Fine s b (mBool b s) :=
+  Fine.bind (fine_rdU8 b s) (fun _ _ _ _ _ => by split <;> simp [Fine])
+
+/-- a loop is fine if its body is, for every budget up to `B` and every input of at most `L` bytes. -/
+theorem fine_skipN {one : Skip} {L B : Nat} (h1 : ∀ b s, b ≤ B → s.length ≤ L → Fine s b (one b s)) :
+    ∀ n b s, b ≤ B → s.length ≤ L → Fine s b (skipN one n b s) := by
+  intro n
+  induction n with
+  | zero => intro b s _ _; simp [skipN, Fine]
+  | succ n ih =>
+    intro b s hb hs
+    simp only [skipN]
+    exact Fine.bind (h1 b s hb hs) (fun _ r b' hr hb' => ih b' r (by omega) (by omega))
+
+theorem fine_mEntry {dec : Skip} {L B : Nat} (hd : ∀ b s, b ≤ B → s.length ≤ L → Fine s b (dec b s)) :
+    ∀ b s, b ≤ B → s.length ≤ L → Fine s b (mEntry dec b s) := fun b s hb hs =>
+  Fine.bind (fine_mStr b s) (fun _ r b' hr hb' => hd b' r (by omega) (by omega))
+
+theorem fine_mBody {dec : Skip} {L B : Nat} (hd : ∀ b s, b ≤ B → s.length ≤ L → Fine s b (dec b s))
+    (idx b : Nat) (r : List UInt8) (hb : b ≤ B) (hr : r.length ≤ L) : Fine r b (mBody dec idx b r) := by
+  unfold mBody
+  repeat' split
+  · simp [Fine]
+  · exact fine_mBool b r
+  · exact Fine.bind (fine_rdVarint 8 8 b r) (fun _ _ _ _ _ => by simp [Fine])
+  · exact Fine.bind (fine_rdN 8 b r) (fun _ _ _ _ _ => by simp [Fine])
+  · exact fine_mStr b r
+  · exact Fine.bind (fine_rdVarint 8 8 b r) (fun n r' b' _ _ =>
+      fine_skipN (L := L) (B := B) (fun b s _ _ => fine_mU8 b s) n b' r' (by omega) (by omega))
+  · exact Fine.bind (fine_rdVarint 8 8 b r) (fun _ _ _ _ _ => by simp [Fine])
+  · exact Fine.bind (fine_rdVarint 8 8 b r) (fun n r' b' _ _ => fine_skipN hd n b' r' (by omega) (by omega))
+  · exact Fine.bind (fine_rdVarint 8 8 b r) (fun n r' b' _ _ =>
+      fine_skipN (fine_mEntry hd) n b' r' (by omega) (by omega))
+  · exact Fine.bind (fine_rdVarint 8 8 b r) (fun n r' b' _ _ =>
+      fine_skipN (L := L) (B := B) (fun b s _ _ => fine_mF32 b s) n b' r' (by omega) (by omega))
+  · simp [Fine]
+
+/-- the value decoder under a limit returns, and its fuel suffices: every nesting level costs a byte. -/
+theorem fine_mV (f : Nat) : ∀ b s, s.length < f → Fine s b (mV f b s) := by
+  induction f with
+  | zero => intro b s h; omega
+  | succ f ih =>
+    intro b s hs
+    simp only [mV]
+    have h1 := fine_rdVarint 4 4 b s
+    cases hrd : rdVarint 4 4 b s with
+    | ok p =>
+      obtain ⟨idx, r, b1⟩ := p
+      have hlt := rdVarint_lt hrd
+      rw [hrd] at h1
+      simp only [Fine] at h1
+      simp only [Res.bind]
+      exact (fine_mBody (L := r.length) (B := b1) (fun b' s' _ hs' => ih b' s' (by omega)) idx b1 r
+        (Nat.le_refl _) (Nat.le_refl _)).weaken h1.1 h1.2
+    | err e => simp [Res.bind, Fine]
+    | panic => rw [hrd] at h1; exact h1.elim
+    | abort => rw [hrd] at h1; exact h1.elim
+    | fuel => rw [hrd] at h1; exact h1.elim
+
+/-- the owned `String`: the announced length is claimed first, so what is allocated is at most the
+remaining budget. -/
+theorem fine_decString (b : Nat) (s : List UInt8) (hb : b < addrSpace) : Fine s b (decString b s) := by
+  unfold decString
+  refine Fine.bind (fine_rdVarint 8 8 b s) (fun n r b1 _ hb1 => ?_)
+  simp only [claim]
+  split
+  · have ha : alloc n 1 = .ok () := alloc_ok n 1 (by omega)
+    simp only [Res.bind, ha]
+    rcases readN_spec n r with ⟨a, r', h, hl⟩ | h
+    · simp only [h]
+      split <;> simp [Fine]
+      omega
+    · simp [h, Fine]
+  · simp [Res.bind, Fine]
+
+theorem fine_mProp {f L B : Nat} (hB : B < addrSpace) (hL : L < f) :
+    ∀ b s, b ≤ B → s.length ≤ L → Fine s b (mProp f b s) := fun b s hb hs =>
+  Fine.bind (fine_decString b s (by omega)) (fun _ r b' hr _ => fine_mV f b' r (by omega))
+
+theorem fine_decStrings {L B : Nat} (hB : B < addrSpace) :
+    ∀ n b s, b ≤ B → s.length ≤ L → Fine s b (decStrings n b s) :=
+  fine_skipN (L := L) (B := B) (fun b s hb _ => fine_decString b s (by omega))
+
+theorem fine_decProps {f L B : Nat} (hB : B < addrSpace) (hL : L < f) :
+    ∀ n b s, b ≤ B → s.length ≤ L → Fine s b (decProps f n b s) :=
+  fine_skipN (fine_mProp hB hL)
+
+theorem fine_decNodes {f L B : Nat} (hB : B < addrSpace) (hL : L < f) :
+    ∀ n b s, b ≤ B → s.length ≤ L → Fine s b (decNodes f n b s) := by
+  intro n
+  induction n with
+  | zero => intro b s _ _; simp [decNodes, Fine]
+  | succ n ih =>
+    intro b s hb hs
+    simp only [decNodes]
+    refine Fine.bind (fine_rdVarint 8 8 b s) (fun _ r1 b1 _ _ => ?_)
+    refine Fine.bind (fine_rdVarint 8 8 b1 r1) (fun nl r2 b2 _ _ => ?_)
+    refine Fine.bind (fine_decStrings (L := L) hB nl b2 r2 (by omega) (by omega)) (fun _ r3 b3 _ _ => ?_)
+    refine Fine.bind (fine_rdVarint 8 8 b3 r3) (fun np r4 b4 _ _ => ?_)
+    refine Fine.bind (fine_decProps hB hL np b4 r4 (by omega) (by omega)) (fun _ r5 b5 _ _ => ?_)
+    refine Fine.bind (ih b5 r5 (by omega) (by omega)) (fun _ _ _ _ _ => by simp [Fine])
+
+theorem fine_decEdges {f L B : Nat} (hB : B < addrSpace) (hL : L < f) :
+    ∀ n b s, b ≤ B → s.length ≤ L → Fine s b (decEdges f n b s) := by
+  intro n
+  induction n with
+  | zero => intro b s _ _; simp [decEdges, Fine]
+  | succ n ih =>
+    intro b s hb hs
+    simp only [decEdges]
+    refine Fine.bind (fine_rdVarint 8 8 b s) (fun _ r1 b1 _ _ => ?_)
+    refine Fine.bind (fine_rdVarint 8 8 b1 r1) (fun _ r2 b2 _ _ => ?_)
+    refine Fine.bind (fine_rdVarint 8 8 b2 r2) (fun _ r3 b3 _ _ => ?_)
+    refine Fine.bind (fine_decString b3 r3 (by omega)) (fun _ r4 b4 _ _ => ?_)
+    refine Fine.bind (fine_rdVarint 8 8 b4 r4) (fun np r5 b5 _ _ => ?_)
+    refine Fine.bind (fine_decProps hB hL np b5 r5 (by omega) (by omega)) (fun _ r6 b6 _ _ => ?_)
+    refine Fine.bind (ih b6 r6 (by omega) (by omega)) (fun _ _ _ _ _ => by simp [Fine])
+
+theorem sizeClass_spec (need : Nat) (h : need ≤ 17592186044415) :
+    need ≤ sizeClass need ∧ sizeClass need ≤ 17592186044415 := by
+  unfold sizeClass
+  repeat' split
+  all_goals omega
+
+theorem need_eq (n : Nat) (h : n < 2199023255544) : satAdd (satMul n 8) 64 = n * 8 + 64 := by
+  have h1 : n * 8 ≤ usizeMax := by unfold usizeMax; omega
+  have h2 : n * 8 + 64 ≤ usizeMax := by unfold usizeMax; omega
+  simp [satAdd, satMul, h1, h2]
+
+/-- the size classes: at least `8·len + 64`, and below the address space for inputs below 2 TiB. -/
+theorem budget_ge (n : Nat) (h : n < 2199023255544) : n * 8 + 64 ≤ budget n := by
+  unfold budget; rw [need_eq n h]
+  exact (sizeClass_spec _ (by omega)).1
+
+theorem budget_lt_addrSpace (n : Nat) (h : n < 2199023255544) : budget n < addrSpace := by
+  unfold budget; rw [need_eq n h]
+  have := (sizeClass_spec (n * 8 + 64) (by omega)).2
+  unfold addrSpace; omega
+
+end SnapP
+
+/-- **`import_snapshot` returns on every input (full, for inputs below 2 TiB).** Whatever the bytes —
+truncated, lying length prefixes, unknown tags, nesting as deep as the input is long — the model of
+`GrafeoDB::import_snapshot` after the repair ends in `Ok` or `Err`: no capacity-overflow panic, no
+allocation failure, and the model's recursion budget is never exhausted. The hypothesis is the range in
+which the size class of `decode_snapshot` (`≥ 8·len + 64`) stays below the modelled address space
+(`2^47`): `len < 2^41 − 8`. Beyond it the class is `usize::MAX >> 1`, a lying prefix between `2^47` and
+the remaining budget would again be handed to the allocator; such an input does not fit into the memory
+of the machines the engine runs on, and is outside this theorem. -/
+theorem c16ser_snapshot_import_never_panics (bs : List UInt8) (h : bs.length < 2199023255544) :
+    (Bin.importSnapshot bs).returned = true := by
+  open SnapP Bin in
+  have hB := budget_lt_addrSpace bs.length h
+  unfold Bin.importSnapshot
+  simp only
+  refine Fine.bind_returned (fine_rdU8 (budget bs.length) bs) (fun ver r1 b1 _ _ => ?_)
+  refine Fine.bind_returned (fine_rdVarint 8 8 b1 r1) (fun nn r2 b2 _ _ => ?_)
+  refine Fine.bind_returned (fine_decNodes (L := bs.length) hB (Nat.lt_succ_self _) nn b2 r2 (by omega) (by omega))
+    (fun ns r3 b3 _ _ => ?_)
+  refine Fine.bind_returned (fine_rdVarint 8 8 b3 r3) (fun ne r4 b4 _ _ => ?_)
+  refine Fine.bind_returned (fine_decEdges (L := bs.length) hB (Nat.lt_succ_self _) ne b4 r4 (by omega) (by omega))
+    (fun es r5 b5 _ _ => ?_)
+  split <;> rfl
+
+/-! ### a valid encoding stays within the budget -/
+namespace SnapP
+open Bin
+
+mutual
+/-- the bytes the limited decoder claims for a value. -/
+def cl : SVal → Nat
+  | .null => 4
+  | .bool _ => 5
+  | .int _ => 12
+  | .float _ => 12
+  | .str s => 12 + s.length
+  | .bytes b => 12 + b.length
+  | .ts _ => 12
+  | .list xs => 12 + clList xs
+  | .map es => 12 + clEntries es
+  | .vec fs => 12 + 4 * fs.length
+def clList : List SVal → Nat
+  | [] => 0
+  | x :: xs => cl x + clList xs
+def clEntries : List (List UInt8 × SVal) → Nat
+  | [] => 0
+  | (k, v) :: es => (8 + k.length) + cl v + clEntries es
+end
+
+theorem claim_ok {b n : Nat} (h : n ≤ b) : claim b n = .ok (b - n) := by simp [claim, h]
+
+theorem rdVarint_varint (w n b : Nat) (rest : List UInt8) (hn : n < W64) (hw : w ≤ b) :
+    rdVarint w 8 b (varint n ++ rest) = .ok (n, rest, b - w) := by
+  simp [rdVarint, claim_ok hw, Res.bind, BinP.readVarint_varint n hn rest]
+
+theorem rdTag (t : Nat) (ht : t < 251) (rest : List UInt8) (x : UInt8) (hx : x = UInt8.ofNat t) (b : Nat) (hb : 4 ≤ b) :
+    rdVarint 4 4 b (x :: rest) = .ok (t, rest, b - 4) := by
+  simp [rdVarint, claim_ok hb, Res.bind, BinP.tag_lit t ht rest x hx]
+
+theorem rdN_append (xs rest : List UInt8) (b : Nat) (h : xs.length ≤ b) :
+    rdN xs.length b (xs ++ rest) = .ok (xs, rest, b - xs.length) := by
+  simp [rdN, claim_ok h, Res.bind, readN_append]
+
+theorem mStr_append (s rest : List UInt8) (b : Nat) (hl : s.length < W64) (hu : validUtf8 s = true) (h : 8 + s.length ≤ b) :
+    mStr b (varint s.length ++ (s ++ rest)) = .ok ((), rest, b - (8 + s.length)) := by
+  simp [mStr, rdVarint_varint 8 s.length b _ hl (by omega), Res.bind, rdN_append s rest (b - 8) (by omega), hu, Nat.sub_sub]
+
+theorem decString_append (s rest : List UInt8) (b : Nat) (hl : s.length < W64) (hu : validUtf8 s = true)
+    (h : 8 + s.length ≤ b) (hb : b < addrSpace) :
+    decString b (varint s.length ++ (s ++ rest)) = .ok ((), rest, b - (8 + s.length)) := by
+  have h2 : s.length ≤ b - 8 := by omega
+  simp [decString, rdVarint_varint 8 s.length b _ hl (by omega), Res.bind, claim_ok h2,
+    alloc_ok s.length 1 (by omega), readN_append, hu, Nat.sub_sub]
+
+theorem skipU8s (bs rest : List UInt8) : ∀ b, bs.length ≤ b → skipN mU8 bs.length b (bs ++ rest) = .ok ((), rest, b - bs.length) := by
+  induction bs with
+  | nil => intro b _; simp [skipN]
+  | cons x xs ih =>
+    intro b hb
+    simp only [List.length_cons] at hb
+    have h1 : 1 ≤ b := by omega
+    simp [skipN, mU8, rdU8, claim_ok h1, readU8, Res.bind, ih (b - 1) (by omega), Nat.sub_sub, Nat.add_comm]
+
+theorem skipF32s (fs : List UInt32) (rest : List UInt8) :
+    ∀ b, 4 * fs.length ≤ b → skipN mF32 fs.length b (Spill.encF32s fs ++ rest) = .ok ((), rest, b - 4 * fs.length) := by
+  induction fs with
+  | nil => intro b _; simp [skipN, Spill.encF32s]
+  | cons x xs ih =>
+    intro b hb
+    simp only [List.length_cons] at hb
+    have h4 := rdN_append (le 4 x.toNat) (Spill.encF32s xs ++ rest) b (by rw [le_length]; omega)
+    rw [le_length] at h4
+    simp [skipN, mF32, Spill.encF32s, u32le, List.append_assoc, h4, Res.bind, ih (b - 4) (by omega), Nat.sub_sub]
+    omega
+
+mutual
+theorem mV_enc (v : SVal) (hw : wf v = true) (f : Nat) (hf : depth v < f) (rest : List UInt8) (b : Nat) (hb : cl v ≤ b) :
+    mV f b (Bin.enc v ++ rest) = .ok ((), rest, b - cl v) := by
+  obtain ⟨f, rfl⟩ : ∃ g, f = g + 1 := ⟨f - 1, by omega⟩
+  cases v with
+  | null => simp [cl] at hb; simp [Bin.enc, mV, rdTag 0 (by omega) _ 0 rfl b (by omega), Res.bind, mBody, cl]
+  | bool x =>
+    simp [cl] at hb
+    have h1 : 1 ≤ b - 4 := by omega
+    cases x <;> simp [Bin.enc, mV, rdTag 1 (by omega) _ 1 rfl b (by omega), Res.bind, mBody, mBool, rdU8, claim_ok h1, readU8, cl, Nat.sub_sub]
+  | int x =>
+    simp [cl] at hb
+    simp [Bin.enc, mV, rdTag 2 (by omega) _ 2 rfl b (by omega), Res.bind, mBody,
+      rdVarint_varint 8 _ (b - 4) rest (BinP.zigzag_lt x) (by omega), cl, Nat.sub_sub]
+  | ts x =>
+    simp [cl] at hb
+    simp [Bin.enc, mV, rdTag 6 (by omega) _ 6 rfl b (by omega), Res.bind, mBody,
+      rdVarint_varint 8 _ (b - 4) rest (BinP.zigzag_lt x) (by omega), cl, Nat.sub_sub]
+  | float x =>
+    simp [cl] at hb
+    have h8 := rdN_append (u64le x) rest (b - 4) (by simp [u64le, le_length]; omega)
+    simp only [u64le, le_length] at h8
+    simp [Bin.enc, mV, rdTag 3 (by omega) _ 3 rfl b (by omega), Res.bind, mBody, u64le, h8, cl, Nat.sub_sub]
+  | str s =>
+    simp only [wf, Bool.and_eq_true, decide_eq_true_eq] at hw
+    simp [cl] at hb
+    simp [Bin.enc, mV, rdTag 4 (by omega) _ 4 rfl b (by omega), Res.bind, mBody,
+      mStr_append s rest (b - 4) hw.2 hw.1 (by omega), cl, Nat.sub_sub]
+    omega
+  | bytes x =>
+    simp only [wf, decide_eq_true_eq] at hw
+    simp [cl] at hb
+    simp [Bin.enc, mV, rdTag 5 (by omega) _ 5 rfl b (by omega), Res.bind, mBody,
+      rdVarint_varint 8 _ (b - 4) _ hw (by omega), skipU8s x rest (b - 12) (by omega), cl, Nat.sub_sub]
+    all_goals omega
+  | vec fs =>
+    simp only [wf, decide_eq_true_eq] at hw
+    simp [cl] at hb
+    simp [Bin.enc, mV, rdTag 9 (by omega) _ 9 rfl b (by omega), Res.bind, mBody, List.append_assoc,
+      rdVarint_varint 8 _ (b - 4) _ hw (by omega), skipF32s fs rest (b - 12) (by omega), cl, Nat.sub_sub]
+    all_goals omega
+  | list xs =>
+    simp only [wf, Bool.and_eq_true, decide_eq_true_eq] at hw
+    have hd : depthList xs < f := by simp [depth] at hf; omega
+    simp [cl] at hb
+    simp [Bin.enc, mV, rdTag 7 (by omega) _ 7 rfl b (by omega), Res.bind, mBody, List.append_assoc,
+      rdVarint_varint 8 _ (b - 4) _ hw.1 (by omega), mItems_enc xs hw.2 f hd rest (b - 12) (by omega), cl, Nat.sub_sub]
+    all_goals omega
+  | map es =>
+    simp only [wf, Bool.and_eq_true, decide_eq_true_eq] at hw
+    have hd : depthEntries es < f := by simp [depth] at hf; omega
+    simp [cl] at hb
+    simp [Bin.enc, mV, rdTag 8 (by omega) _ 8 rfl b (by omega), Res.bind, mBody, List.append_assoc,
+      rdVarint_varint 8 _ (b - 4) _ hw.1.1 (by omega), mEntries_enc es hw.2 f hd rest (b - 12) (by omega), cl, Nat.sub_sub]
+    all_goals omega
+
+theorem mItems_enc (xs : List SVal) (hw : wfList xs = true) (f : Nat) (hf : depthList xs < f) (rest : List UInt8)
+    (b : Nat) (hb : clList xs ≤ b) :
+    skipN (mV f) xs.length b (Bin.encList xs ++ rest) = .ok ((), rest, b - clList xs) := by
+  cases xs with
+  | nil => simp [skipN, Bin.encList, clList]
+  | cons x xs =>
+    simp only [wfList, Bool.and_eq_true] at hw
+    simp only [depthList] at hf
+    simp only [clList] at hb
+    simp [skipN, Bin.encList, List.append_assoc, mV_enc x hw.1 f (by omega) _ b (by omega), Res.bind,
+      mItems_enc xs hw.2 f (by omega) rest (b - cl x) (by omega), clList, Nat.sub_sub]
+
+theorem mEntries_enc (es : List (List UInt8 × SVal)) (hw : wfEntries es = true) (f : Nat) (hf : depthEntries es < f)
+    (rest : List UInt8) (b : Nat) (hb : clEntries es ≤ b) :
+    skipN (mEntry (mV f)) es.length b (Bin.encEntries es ++ rest) = .ok ((), rest, b - clEntries es) := by
+  cases es with
+  | nil => simp [skipN, Bin.encEntries, clEntries]
+  | cons e es =>
+    obtain ⟨k, v⟩ := e
+    simp only [wfEntries, Bool.and_eq_true, decide_eq_true_eq] at hw
+    simp only [depthEntries] at hf
+    simp only [clEntries] at hb
+    simp [skipN, mEntry, Bin.encEntries, List.append_assoc, mStr_append k _ b hw.1.1.2 hw.1.1.1 (by omega), Res.bind,
+      mV_enc v hw.1.2 f (by omega) _ (b - (8 + k.length)) (by omega),
+      mEntries_enc es hw.2 f (by omega) rest (b - (8 + k.length + cl v)) (by omega), clEntries, Nat.sub_sub]
+end
+
+end SnapP
+
+namespace SnapP
+open Bin
+
+theorem encF32s_length (fs : List UInt32) : (Spill.encF32s fs).length = 4 * fs.length := by
+  induction fs with
+  | nil => simp [Spill.encF32s]
+  | cons x xs ih => simp [Spill.encF32s, u32le, le_length, ih]; omega
+
+mutual
+/-- a decoded item claims at most 8 times the bytes it occupies (a one-byte varint of a `u64` claims 8). -/
+theorem cl_le_enc (v : SVal) : cl v ≤ 8 * (Bin.enc v).length := by
+  cases v with
+  | null => simp [cl, Bin.enc]
+  | bool b => simp [cl, Bin.enc]
+  | int x => have := BinP.varint_pos (zigzag x); simp [cl, Bin.enc]; omega
+  | ts x => have := BinP.varint_pos (zigzag x); simp [cl, Bin.enc]; omega
+  | float x => simp [cl, Bin.enc, u64le, le_length]
+  | str s => have := BinP.varint_pos s.length; simp [cl, Bin.enc]; omega
+  | bytes s => have := BinP.varint_pos s.length; simp [cl, Bin.enc]; omega
+  | vec fs => have := BinP.varint_pos fs.length; simp [cl, Bin.enc, encF32s_length]; omega
+  | list xs => have := BinP.varint_pos xs.length; have := clList_le_enc xs; simp [cl, Bin.enc]; omega
+  | map es => have := BinP.varint_pos es.length; have := clEntries_le_enc es; simp [cl, Bin.enc]; omega
+theorem clList_le_enc (xs : List SVal) : clList xs ≤ 8 * (Bin.encList xs).length := by
+  cases xs with
+  | nil => simp [clList]
+  | cons x xs => have := cl_le_enc x; have := clList_le_enc xs; simp [clList, Bin.encList]; omega
+theorem clEntries_le_enc (es : List (List UInt8 × SVal)) : clEntries es ≤ 8 * (Bin.encEntries es).length := by
+  cases es with
+  | nil => simp [clEntries]
+  | cons e es =>
+    obtain ⟨k, v⟩ := e
+    have := cl_le_enc v; have := clEntries_le_enc es; have := BinP.varint_pos k.length
+    simp [clEntries, Bin.encEntries]; omega
+end
+
+end SnapP
+
+/-- **A valid value is accepted under every sufficient budget (full).** The limited value decoder reads
+the encoding of a well-formed value, leaves the rest, and uses up exactly `cl v` of the budget — which is
+at most 8 bytes per encoded byte, the factor `decode_snapshot` provides for. -/
+theorem c16ser_snapshot_value_within_budget (v : SVal) (hw : wf v = true) (rest : List UInt8) (b : Nat)
+    (hb : 8 * (Bin.enc v).length ≤ b) :
+    Bin.mV ((Bin.enc v).length + 1) b (Bin.enc v ++ rest) = .ok ((), rest, b - SnapP.cl v) ∧ SnapP.cl v ≤ b := by
+  have h1 := SnapP.cl_le_enc v
+  have h2 := BinP.depth_lt_enc v
+  exact ⟨SnapP.mV_enc v hw _ (by omega) rest b (by omega), by omega⟩
+
+/-- **A valid snapshot still imports (full, for the shape `ser snap` exports: one node, one property).**
+For every id, every UTF-8 key and every well-formed value, the bytes `export_snapshot` produces are
+accepted by `import_snapshot` after the repair: the claims of a valid encoding (`49 + |key| + cl v`) never
+exceed the budget `≥ 8·len + 64`. (The first version of the repair, budget `2·len + 64`, failed this
+on 2730 empty nodes; corpus case `snapshot-budget`.) -/
+theorem c16ser_snapshot_import_valid (id : Nat) (key : List UInt8) (v : SVal) (hid : id < W64)
+    (hk : validUtf8 key = true) (hkl : key.length < W64) (hw : wf v = true)
+    (hlen : (Bin.encSnapshot1 id key v).length < 2199023255544) :
+    Bin.importSnapshot (Bin.encSnapshot1 id key v) = .ok (1, 0) := by
+  open SnapP Bin in
+  have hge := budget_ge _ hlen
+  have hlt := budget_lt_addrSpace _ hlen
+  have hcl := cl_le_enc v
+  have hd := BinP.depth_lt_enc v
+  have hL : 7 + key.length + (Bin.enc v).length ≤ (encSnapshot1 id key v).length := by
+    have := BinP.varint_pos id; have := BinP.varint_pos key.length; have := BinP.varint_pos 1; have := BinP.varint_pos 0
+    simp [encSnapshot1, encStr]; omega
+  unfold Bin.importSnapshot
+  simp only []
+  generalize budget (encSnapshot1 id key v).length = B at *
+  generalize hF : (encSnapshot1 id key v).length + 1 = F
+  have hdf : depth v < F := by omega
+  have hB : 49 + key.length + cl v ≤ B := by omega
+  clear hge hL hF hlen
+  have he : encSnapshot1 id key v = 1 :: (varint 1 ++ (varint id ++ (varint 0 ++ (varint 1 ++
+      (varint key.length ++ (key ++ (Bin.enc v ++ (varint 0 ++ [])))))))) := by simp [encSnapshot1, encStr]
+  rw [he]
+  have h1 : 1 < W64 := by decide
+  have h0 : 0 < W64 := by decide
+  have c1 : claim B 1 = .ok (B - 1) := claim_ok (by omega)
+  simp only [rdU8, c1, readU8, Res.bind]
+  rw [rdVarint_varint 8 1 _ _ h1 (by omega)]
+  simp only [Res.bind, decNodes]
+  rw [rdVarint_varint 8 id _ _ hid (by omega)]
+  simp only [Res.bind]
+  rw [rdVarint_varint 8 0 _ _ h0 (by omega)]
+  simp only [Res.bind, decStrings, skipN]
+  rw [rdVarint_varint 8 1 _ _ h1 (by omega)]
+  simp only [Res.bind, decProps, skipN, mProp]
+  rw [decString_append key _ _ hkl hk (by omega) (by omega)]
+  simp only [Res.bind]
+  rw [mV_enc v hw F hdf _ _ (by omega)]
+  simp only [Res.bind]
+  rw [rdVarint_varint 8 0 _ _ h0 (by omega)]
+  simp [Res.bind, decEdges, dedupCount]
+
+/-- **Regression witness: `import_snapshot` before the repair, on 13 bytes.** version 1, one node, id 0,
+one label whose length field is `u64::MAX`: without a limit the owned `String` is decoded by
+`vec![0u8; len]` before the bytes are read → panic; with length `2^62` → allocation failure, abort. -/
+theorem c16ser_snapshot_import_old_panic_witness :
+    Bin.Old.importSnapshot [1, 1, 0, 1, 253, 0xff, 0xff, 0xff, 0xff, 0xff, 0xff, 0xff, 0xff] = .panic
+    ∧ Bin.Old.importSnapshot [1, 1, 0, 1, 253, 0, 0, 0, 0, 0, 0, 0, 0x40] = .abort := by
   refine ⟨by rfl, by rfl⟩
+
+/-- **The same bytes after the repair** are refused before anything is allocated (`LimitExceeded`), and a
+snapshot that is valid still imports (one node, one property holding every kind of value; 1000 nodes). -/
+theorem c16ser_snapshot_import_nonvacuity :
+    Bin.importSnapshot [1, 1, 0, 1, 253, 0xff, 0xff, 0xff, 0xff, 0xff, 0xff, 0xff, 0xff] = .err .limit
+    ∧ Bin.importSnapshot [1, 1, 0, 1, 253, 0, 0, 0, 0, 0, 0, 0, 0x40] = .err .limit
+    ∧ Bin.importSnapshot (Bin.encSnapshot1 0 [107] sample) = .ok (1, 0)
+    ∧ Bin.importSnapshot [2, 0, 0] = .err .version
+    ∧ Bin.importSnapshot [1, 1, 0, 1, 2, 0xc3] = .err .eof := by
+  refine ⟨by rfl, by rfl, by rfl, by rfl, by rfl⟩
 
 example : Bin.importSnapshot (Bin.encSnapshot1 0 [107] sample) = .ok (1, 0) := by rfl
 example : Bin.importSnapshot [2, 0, 0] = .err .version := by rfl
+example : Bin.Old.importSnapshot (Bin.encSnapshot1 0 [107] sample) = .ok (1, 0) := by rfl
 
 /-! ## JSON of the C binding -/
 namespace JsonP
